@@ -28,6 +28,9 @@ type Prosumer struct {
 	client        *core.Client
 	proxy         prosumer
 	callbacks     sync.Map // map[string]func(Message)
+	queue         []map[string][]Message
+	queueLock     sync.Mutex
+	dispatching   bool
 	RetryInterval time.Duration
 	OnError       func(error)
 	OnSubscribe   func(topic string)
@@ -107,6 +110,35 @@ func (p *Prosumer) dispatch(topics map[string][]Message) {
 	}
 }
 
+// enqueue hands a batch to the dispatcher. Batches are dispatched one after
+// the other, in the order they were received, by a goroutine of their own: the
+// callbacks see the messages of a topic in order and do not hold up the polling.
+func (p *Prosumer) enqueue(topics map[string][]Message) {
+	p.queueLock.Lock()
+	p.queue = append(p.queue, topics)
+	start := !p.dispatching
+	p.dispatching = true
+	p.queueLock.Unlock()
+	if start {
+		go p.dispatchQueue()
+	}
+}
+
+func (p *Prosumer) dispatchQueue() {
+	for {
+		p.queueLock.Lock()
+		if len(p.queue) == 0 {
+			p.dispatching = false
+			p.queueLock.Unlock()
+			return
+		}
+		topics := p.queue[0]
+		p.queue = p.queue[1:]
+		p.queueLock.Unlock()
+		p.dispatch(topics)
+	}
+}
+
 func (p *Prosumer) call(callback Callback, message Message) {
 	switch callback := callback.(type) {
 	case func(Message):
@@ -143,7 +175,7 @@ func (p *Prosumer) message() {
 			if topics == nil {
 				return
 			}
-			go p.dispatch(topics)
+			p.enqueue(topics)
 		}
 		for err != nil {
 			if !core.IsTimeoutError(err) {
